@@ -227,12 +227,78 @@ theorem C4.final {ind : Array Int} (h : C4 n imi n ind) : IndOK n ind := by
     rw [this]
 end
 
+/-! ### the executable `ptsort` computes `ptsortSpec` -/
+
+/-- position `i` inside the pixels of its own level -/
+theorem filter_get (n : Nat) (lev : Nat → Nat) (i : Nat) (hi : i < n) :
+    ((List.range n).filter fun x => lev x == lev i)[eqUpTo i lev (lev i)]? = some i := by
+  obtain ⟨m, rfl⟩ : ∃ m, n = i + (m + 1) := ⟨n - i - 1, by omega⟩
+  rw [List.range_add, List.filter_append, List.range_succ_eq_map, List.map_cons, List.filter_cons]
+  have : (lev (i + 0) == lev i) = true := by simp
+  rw [this]
+  simp only [if_true]
+  rw [List.getElem?_append_right (by unfold eqUpTo; exact Nat.le_refl _)]
+  unfold eqUpTo
+  simp
+
+/-- number of entries of `ptsortSpec` before level `v` -/
+theorem spec_prefix_len (n : Nat) (lev : Nat → Nat) (v : Nat) :
+    ((List.range v).flatMap fun u => (List.range n).filter fun p => lev p == u).length = below n lev v := by
+  induction v with
+  | zero => simp [below_zero]
+  | succ v ih =>
+    rw [List.range_succ, List.flatMap_append, List.length_append, ih, below_succ]
+    simp [eqUpTo]
+
+theorem spec_get (ihmax n : Nat) (lev : Nat → Nat) (i : Nat) (hi : i < n) (hl : lev i < ihmax) :
+    (ptsortSpec ihmax n lev)[slot n lev i]? = some i := by
+  unfold ptsortSpec
+  obtain ⟨m, rfl⟩ : ∃ m, ihmax = lev i + (m + 1) := ⟨ihmax - lev i - 1, by omega⟩
+  rw [List.range_add, List.flatMap_append, List.range_succ_eq_map, List.map_cons, List.flatMap_cons]
+  have hlen := spec_prefix_len n lev (lev i)
+  rw [slot_eq, List.getElem?_append_right (by rw [hlen]; omega), hlen, Nat.add_sub_cancel_left,
+    Nat.add_zero, List.getElem?_append_left]
+  · exact filter_get n lev i hi
+  · have := filter_get n lev i hi
+    exact (List.getElem?_eq_some_iff.mp this).1
+
+theorem spec_length (ihmax n : Nat) (lev : Nat → Nat) (hl : ∀ i, i < n → lev i < ihmax) :
+    (ptsortSpec ihmax n lev).length = n := by
+  unfold ptsortSpec
+  rw [spec_prefix_len]
+  unfold below
+  rw [List.filter_eq_self.mpr, List.length_range]
+  intro x hx
+  simpa using hl x (List.mem_range.mp hx)
+
+/-- a complete fourth loop yields exactly the specification list -/
+theorem C4.eq_spec {ihmax n : Nat} {imi ind : Array Int} (h : C4 n imi n ind)
+    (hl : ∀ i, i < n → levOf imi i < ihmax) :
+    ind.toList = (ptsortSpec ihmax n (levOf imi)).map (fun (x : Nat) => (x : Int)) := by
+  obtain ⟨hs, hv⟩ := h
+  have hsur := inj_surj (n := n) (slot n (levOf imi)) (fun i hi => slot_lt' hi) (fun i j hi hj => slot_inj hi hj)
+  apply List.ext_getElem?
+  intro k
+  by_cases hk : k < n
+  · obtain ⟨i, hi, rfl⟩ := hsur k hk
+    rw [List.getElem?_map, spec_get ihmax n _ i hi (hl i hi)]
+    have := hv i hi
+    rw [getElem!_def] at this
+    rw [Array.getElem?_toList]
+    have hlt : slot n (levOf imi) i < ind.size := by rw [hs]; exact slot_lt' hi
+    rw [Array.getElem?_eq_getElem hlt] at this ⊢
+    simp at this ⊢
+    exact this
+  · rw [List.getElem?_eq_none (by simp [hs]; omega), List.getElem?_eq_none (by simp [spec_length ihmax n _ hl]; omega)]
+
 theorem range_toList_length (a b : Nat) : [a:b].toList.length = b - a := by
   simp [Std.Legacy.Range.toList]
 
 theorem ptsort_spec {ihmax n : Nat} {imi : Array Int} (hi : 1 ≤ ihmax) (hs : imi.size = n)
     (hl : ∀ i, i < n → 0 ≤ imi[i]! ∧ imi[i]! < ihmax) :
-    ⦃fun o => ⌜o = false⌝⦄ ptsort ihmax n imi ⦃⇓ r o => ⌜o = false ∧ IndOK n r⌝⦄ := by
+    ⦃fun o => ⌜o = false⌝⦄ ptsort ihmax n imi
+    ⦃⇓ r o => ⌜o = false ∧ IndOK n r ∧
+      r.toList = (ptsortSpec ihmax n (levOf imi)).map (fun (x : Nat) => (x : Int))⌝⦄ := by
   mvcgen [ptsort]
   case inv1 => exact ⇓⟨xs, numv⟩ o => ⌜o = false ∧ C1 ihmax imi xs.prefix.length numv⌝
   case inv2 => exact ⇓⟨xs, iaddr⟩ o => ⌜o = false ∧ C2 ihmax n imi xs.prefix.length iaddr⌝
@@ -261,6 +327,7 @@ theorem ptsort_spec {ihmax n : Nat} {imi : Array Int} (hi : 1 ≤ ihmax) (hs : i
   case vc43 | vc44 => have := (C4.step h3 h4 (by assumption)).1; omega
   case vc46 => exact ⟨trivial, (C4.step h3 h4 (by assumption)).2⟩
   case vc47 => exact ⟨trivial, C4.init⟩
-  case vc48 => exact ⟨trivial, h4.final⟩
+  case vc48 =>
+    exact ⟨trivial, h4.final, h4.eq_spec (fun i hi => by have := hl i hi; unfold levOf; omega)⟩
 
 end WS.Fld
